@@ -85,4 +85,10 @@ pub assume_specification<'a, K, V>[ <&'a IndexMap<K, V> as IntoIterator>::into_i
         r.obeys_prophetic_iter_laws(),
         r.remaining().len() == im_vals(*m).len(),
         forall|i: int| 0 <= i < im_vals(*m).len() ==> *(#[trigger] r.remaining()[i]).0 == im_keys(*m)[i] && *r.remaining()[i].1 == im_vals(*m)[i];
+/// `index_map.iter()`: the same entries in the same order
+pub assume_specification<'a, K, V>[ IndexMap::<K, V>::iter ](m: &'a IndexMap<K, V>) -> (r: IndexMapIter<'a, K, V>)
+    ensures
+        r.obeys_prophetic_iter_laws(),
+        r.remaining().len() == im_vals(*m).len(),
+        forall|i: int| 0 <= i < im_vals(*m).len() ==> *(#[trigger] r.remaining()[i]).0 == im_keys(*m)[i] && *r.remaining()[i].1 == im_vals(*m)[i];
 } // verus!
